@@ -149,6 +149,12 @@ fn main() {
             }
             println!("{}", serde_json::to_string(&v).unwrap());
         }
+        "digest-one" => {
+            let line = a.get(2).cloned().unwrap_or_default();
+            let bytes: Vec<u8> = (0..line.len() / 2).filter_map(|i| u8::from_str_radix(&line[2 * i..2 * i + 2], 16).ok()).collect();
+            let s = String::from_utf8_lossy(&bytes).to_string();
+            println!("{}", props::meta::digest_pair(&s));
+        }
         "digest-server" => {
             use std::io::BufRead;
             let stdin = std::io::stdin();
